@@ -612,10 +612,27 @@ def boundary(chk: Check, notn: str, ref: pl.Ref, thorough: bool):
     jobs = []
     for n in (4000, DIGIT_LIMIT, DIGIT_LIMIT + 1):
         jobs.append(dict(notation=notn, preds=[], auto=True, mode='fresh', inputs=[], rep=[atom, one, n, '']))
+    # after the rejected over-long subscript (same interpreter, fresh parsers and one reused parser): ordinary
+    # subscripted symbols still parse - nothing of the failed parse may survive
+    after = [atom + one, atom + one * 3, neg + atom + one * 2, atom]
+    jobs.append(dict(notation=notn, preds=[], auto=True, mode='fresh', inputs=after, after_overlong=True))
+    jobs.append(dict(notation=notn, preds=[], auto=True, mode='history', inputs=after, after_overlong=True))
     for d in (100, 200, 500):
         jobs.append(dict(notation=notn, preds=[], auto=True, mode='fresh', inputs=[], rep=['', neg, d, atom], deep=True))
-    real, model = run_both([{k: v for k, v in j.items() if k != 'deep'} for j in jobs], f'Bound_{notn}_', shard=1)
+    real, model = run_both([{k: v for k, v in j.items() if k not in ('deep', 'after_overlong')} for j in jobs], f'Bound_{notn}_', shard=1)
     for job, rr, mm in zip(jobs, real, model):
+        if job.get('after_overlong'):
+            for k_, inp in enumerate(job['inputs']):
+                m_res = mm[k_].partition(' # ')[0]
+                chk.case(['after-overlong', notn, job['mode'], inp], nontrivial=True)
+                chk.count('boundary', f'{notn}:after-overlong:{job["mode"]}')
+                if rr['results'][k_] != m_res:
+                    chk.violation(f'{notn}:state-survives-failed-parse',
+                                  f'{notn} parser on {inp!r} after an over-long subscript was rejected in the same interpreter '
+                                  f'({job["mode"]} parser): implementation {rr["results"][k_]!r}, model {m_res!r}',
+                                  dict(kind='parse', notation=notn, preds=[], auto=True, mode=job['mode'],
+                                       inputs=[atom + one * (DIGIT_LIMIT + 1)] + job['inputs'], index=k_ + 1, expect=m_res))
+            continue
         pre, unit, cnt, suf = job['rep']
         inp = pre + unit * cnt + suf
         m_res, _, m_store = mm[0].partition(' # ')
